@@ -4,6 +4,7 @@ followed by one `#NOTES` value per chart whose data parameter is the note data i
 -/
 import Reamber.Lemmas.SMRenderFile
 import Reamber.Lemmas.SMWriteClean
+import Reamber.Lemmas.SMText
 
 namespace Reamber.SM
 
@@ -524,5 +525,150 @@ theorem write_ok (h : WHeader) (charts : List WChart) (w : Written) (hw : SM.wri
             have e := (Except.ok.inj this).symm
             rw [e]
             exact ⟨rfl, rfl, rfl, rfl⟩
+
+/-! ### the numeric header lines read back (from the per-number renderer assumption) -/
+
+/-- a number text: non-empty, no whitespace, no ',' and no '=' -/
+def NumText (s : Str) : Prop := s ≠ [] ∧ ∀ c ∈ s, isWs c = false ∧ c ≠ ',' ∧ c ≠ '='
+
+/-- the renderer assumption, per number: `parseFloat (show q) = .ok q`, and the text is a number text -/
+structure ShowsParse (sh : Shows) : Prop where
+  text : ∀ q, NumText (sh.rat q)
+  parse : ∀ q, parseFloat (sh.rat q) = .ok q
+
+theorem trim_noWs (s : Str) (h : ∀ c ∈ s, isWs c = false) : trim s = s := by
+  unfold trim
+  rw [dropWhile_eq_self isWs s h, dropWhile_eq_self isWs s.reverse (fun c hc => h c (List.mem_reverse.mp hc)),
+    List.reverse_reverse]
+
+theorem trim_nl_cons (y : Str) : trim ('\n' :: y) = trim y := by
+  unfold trim
+  rw [List.dropWhile_cons_of_pos isWs_nl]
+
+theorem joinWith_cons_head (sep : Str) (a : Char) (x : Str) (l : List Str) :
+    joinWith sep ((a :: x) :: l) = a :: joinWith sep (x :: l) := by
+  cases l <;> simp [joinWith]
+
+theorem joinWith_comma_nl : ∀ (l : List Str) (y : Str),
+    joinWith [',', '\n'] (y :: l) = joinWith [','] (y :: l.map (fun q => '\n' :: q)) := by
+  intro l
+  induction l with
+  | nil => intro y; rfl
+  | cons q r ih =>
+    intro y
+    simp only [joinWith, List.map_cons]
+    rw [ih q, joinWith_cons_head]
+    simp
+
+/-- one `beat=bpm` entry -/
+def pairText (sh : Shows) (p : Rat × Rat) : Str := sh.rat p.1 ++ '=' :: sh.rat p.2
+
+theorem pairText_facts (sh : Shows) (h : ShowsParse sh) (p : Rat × Rat) :
+    pairText sh p ≠ [] ∧ (∀ c ∈ pairText sh p, isWs c = false ∧ c ≠ ',') ∧ parsePair (pairText sh p) = some p := by
+  obtain ⟨h1, h1c⟩ := h.text p.1
+  obtain ⟨h2, h2c⟩ := h.text p.2
+  refine ⟨by simp [pairText], ?_, ?_⟩
+  · intro c hc
+    simp only [pairText, List.mem_append, List.mem_cons] at hc
+    rcases hc with hc | rfl | hc
+    · exact ⟨(h1c c hc).1, (h1c c hc).2.1⟩
+    · decide
+    · exact ⟨(h2c c hc).1, (h2c c hc).2.1⟩
+  · unfold parsePair pairText
+    rw [splitOn_append_sep '=' _ _ (fun hm => (h1c _ hm).2.2 rfl), splitOn_no_sep '=' _ (fun hm => (h2c _ hm).2.2 rfl)]
+    simp [h.parse]
+
+theorem foldr_parsePair (sh : Shows) (h : ShowsParse sh) : ∀ (ps : List (Rat × Rat)),
+    (ps.map (pairText sh)).foldr (fun it acc => match parsePair it, acc with
+      | some p, some l => some (p :: l)
+      | _, _ => none) (some []) = some ps := by
+  intro ps
+  induction ps with
+  | nil => rfl
+  | cons p t ih => simp only [List.map_cons, List.foldr_cons, ih, (pairText_facts sh h p).2.2]
+
+/-- **the `#BPMS` parameter reads back** -/
+theorem parsePairs_bpmsParam (sh : Shows) (h : ShowsParse sh) (bpms : List (Rat × Rat)) :
+    parsePairs (bpmsParam sh bpms) = some bpms := by
+  cases bpms with
+  | nil => simp [bpmsParam, parsePairs, joinWith, splitOn, trim]
+  | cons p0 ps =>
+    unfold parsePairs
+    have hX : bpmsParam sh (p0 :: ps) = joinWith [','] (pairText sh p0 :: (ps.map (pairText sh)).map (fun q => '\n' :: q)) := by
+      unfold bpmsParam
+      rw [List.map_cons]
+      exact joinWith_comma_nl _ _
+    have hsplit : splitOn ',' (bpmsParam sh (p0 :: ps)) =
+        pairText sh p0 :: (ps.map (pairText sh)).map (fun q => '\n' :: q) := by
+      rw [hX]
+      apply splitOn_joinWith ',' _ (by simp)
+      intro y hy hm
+      simp only [List.mem_cons, List.mem_map] at hy
+      rcases hy with rfl | ⟨q, ⟨p, _, rfl⟩, rfl⟩
+      · exact ((pairText_facts sh h p0).2.1 _ hm).2 rfl
+      · simp only [List.mem_cons] at hm
+        rcases hm with hm | hm
+        · revert hm; decide
+        · exact ((pairText_facts sh h p).2.1 _ hm).2 rfl
+    have hitems : ((splitOn ',' (bpmsParam sh (p0 :: ps))).map trim).filter (fun x => !x.isEmpty) =
+        (p0 :: ps).map (pairText sh) := by
+      rw [hsplit]
+      have e1 : ((pairText sh p0 :: (ps.map (pairText sh)).map (fun q => '\n' :: q)).map trim) =
+          (p0 :: ps).map (pairText sh) := by
+        simp only [List.map_cons, List.map_map]
+        congr 1
+        · exact trim_noWs _ (fun c hc => ((pairText_facts sh h p0).2.1 c hc).1)
+        · apply List.map_congr_left
+          intro p _
+          simp only [Function.comp]
+          rw [trim_nl_cons]
+          exact trim_noWs _ (fun c hc => ((pairText_facts sh h p).2.1 c hc).1)
+      rw [e1]
+      apply List.filter_eq_self.mpr
+      intro y hy
+      obtain ⟨p, _, rfl⟩ := List.mem_map.mp hy
+      have := (pairText_facts sh h p).1
+      cases hh : pairText sh p with
+      | nil => exact absurd hh this
+      | cons a b => rfl
+    simp only [hitems]
+    exact foldr_parsePair sh h (p0 :: ps)
+
+/-- the whole parameter has no surrounding whitespace -/
+theorem trim_bpmsParam (sh : Shows) (h : ShowsParse sh) (bpms : List (Rat × Rat)) :
+    trim (bpmsParam sh bpms) = bpmsParam sh bpms := by
+  cases hb : bpms with
+  | nil => simp [bpmsParam, joinWith, trim]
+  | cons p0 ps =>
+    have hne : bpms ≠ [] := by rw [hb]; simp
+    rw [← hb]
+    -- first character
+    obtain ⟨Y1, a, ha, h1⟩ : ∃ Y1 a, isWs a = false ∧ bpmsParam sh bpms = a :: Y1 := by
+      rw [hb]
+      obtain ⟨hne1, hc1⟩ := h.text p0.1
+      cases hr : sh.rat p0.1 with
+      | nil => exact absurd hr hne1
+      | cons a r =>
+        obtain ⟨Y, hY⟩ := joinWith_head [',', '\n'] a (r ++ '=' :: sh.rat p0.2) (ps.map (fun p => sh.rat p.1 ++ '=' :: sh.rat p.2))
+        refine ⟨Y, a, (hc1 a (by rw [hr]; simp)).1, ?_⟩
+        unfold bpmsParam
+        rw [List.map_cons, hr]
+        exact hY
+    -- last character
+    obtain ⟨Y2, b, hbw, h2⟩ : ∃ Y2 b, isWs b = false ∧ bpmsParam sh bpms = Y2 ++ [b] := by
+      have e1 := (List.dropLast_append_getLast hne).symm
+      obtain ⟨hne2, hc2⟩ := h.text (bpms.getLast hne).2
+      have e2 := (List.dropLast_append_getLast hne2).symm
+      obtain ⟨Y, hY⟩ := joinWith_last [',', '\n'] ((sh.rat (bpms.getLast hne).2).getLast hne2)
+        (sh.rat (bpms.getLast hne).1 ++ '=' :: (sh.rat (bpms.getLast hne).2).dropLast)
+        (bpms.dropLast.map (fun p => sh.rat p.1 ++ '=' :: sh.rat p.2))
+      refine ⟨Y, _, (hc2 _ (List.getLast_mem hne2)).1, ?_⟩
+      rw [← hY]
+      unfold bpmsParam
+      conv => lhs; rw [e1, List.map_append, List.map_singleton]
+      congr 2
+      conv => lhs; rw [e2]
+      simp
+    exact trim_of_ends _ Y1 Y2 a b h1 h2 ha hbw
 
 end Reamber.SM
